@@ -55,8 +55,13 @@ pub fn on_thread_panic(tid: usize, payload: Box<dyn std::any::Any + Send>) {
         ("?".into(), m)
     });
     let s = sim();
-    if loc.contains("/repo/") {
-        let file = loc.rsplit("/repo/").next().unwrap_or(&loc).to_string();
+    // harness sources compile with relative paths ("src/..."), the library (a path dependency
+    // outside this workspace, wherever it lives) and std with absolute ones
+    if loc.starts_with('/') {
+        let file = match loc.find("/src/") {
+            Some(i) if !loc.starts_with("/rustc/") => loc[i + 1..].to_string(),
+            _ => loc.clone(),
+        };
         let prop = panic_prop(&file, &s.default_prop);
         let det = format!("library panicked on t{} at {}: {}", tid, file, msg);
         let short = file.split(':').take(2).collect::<Vec<_>>().join(":");
@@ -246,6 +251,7 @@ pub fn run_in_child(desc: &RunDesc) -> ! {
     match desc.family.as_str() {
         "queue" => crate::fam_queue::run(desc),
         "list" => crate::fam_list::run(desc),
+        "client" => crate::fam_client::run(desc),
         "ebr-private" => crate::fam_ebr::run_private(desc),
         "chain" | "chain-stack" | "chain-weak" => crate::fam_chain::run(desc),
         _ => {
@@ -417,7 +423,11 @@ pub fn fork_run(desc: &RunDesc) -> RunResult {
         if let Some(p) = shm::read_panic() {
             // a panic that could not unwind (thread-local destructor, nested panic): say where
             let loc = p.split(" :: ").next().unwrap_or("").to_string();
-            let short = loc.rsplit("/repo/").next().unwrap_or(&loc).split(':').take(2).collect::<Vec<_>>().join(":");
+            let rel = match loc.find("/src/") {
+                Some(i) if !loc.starts_with("/rustc/") => loc[i + 1..].to_string(),
+                _ => loc.clone(),
+            };
+            let short = rel.split(':').take(2).collect::<Vec<_>>().join(":");
             what = format!("{}; panic before the abort: {}", what, p);
             json.put("panic_at", short);
             // a panic that cannot unwind: thread-local destructor context (C20) or nested panic
@@ -426,7 +436,7 @@ pub fn fork_run(desc: &RunDesc) -> RunResult {
                 props.push(J::Str(desc.prop.clone()));
             }
             json.put("props", J::Arr(props));
-            json.put("panic_in_library", loc.contains("/repo/"));
+            json.put("panic_in_library", loc.starts_with('/'));
         }
         json.put("detail", what);
         json.put("crash_tag", desc.params.gets("crash_tag"));
